@@ -3,7 +3,9 @@
 (a) KVStore part
     1. TLC model-checks spec/KVStore.tla (atomic map, call / linearise / return) on bounded
        instances (KVStoreMC) and prints every call sequence as a sequential driver script.
-    2. The Rust engine `kvstore --mode fs` executes the scripts and seeded multi-threaded drivers
+       An asynchronous instance (issue tickets) yields scripts "issue a, b, c; drive c, a, b".
+    2. The Rust engine `kvstore --mode fs` executes the scripts (synchronous API, and asynchronous API on
+       a tokio runtime with futures driven in another order than issued) and seeded multi-threaded drivers
        (<= 4 threads, <= 4 keys incl. empty namespaces and maximum-length names, distinguishable
        values) on the real FilesystemStore (v1) and FilesystemStoreV2, recording call / return
        events ordered by a global atomic sequence.
@@ -160,6 +162,62 @@ def selftest_fs(wd, recs):
     return selftest(wd, "KVStoreTrace", "KVStoreTrace.cfg", recs, muts)
 
 
+def selftest_async(wd, fs_trace):
+    """Issue order: in an asynchronous run, a read issued after two writes of its key completed (nothing
+    else of that key outstanding) is made to return the EARLIER-ISSUED write's value, and a removal
+    issued last is made to lose against an earlier-issued write.  Both must be rejected."""
+    runs, cur = [], None
+    with open(fs_trace) as f:
+        for ln in f:
+            r = json.loads(ln)
+            if r["ev"] == "reset":
+                cur = [r] if r.get("mode") == "async" else None
+                if cur is not None:
+                    runs.append(cur)
+            elif cur is not None:
+                cur.append(r)
+            if len(runs) > 400:
+                break
+    muts = {}
+    for evs in runs:
+        out = {}      # slot -> call record of mutators outstanding
+        last = {}     # key -> list of (tk, value) of completed mutators, in completion order
+        calls = {}
+        for i, r in enumerate(evs):
+            if r["ev"] == "call":
+                calls[r["t"]] = r
+                if r["op"] in ("write", "remove"):
+                    out[r["t"]] = r
+            elif r["ev"] == "ret":
+                c = calls.get(r["t"])
+                if r["op"] in ("write", "remove"):
+                    out.pop(r["t"], None)
+                    last.setdefault(r["k"], []).append((c["tk"], c["v"] if c["op"] == "write" else 0))
+                elif r["op"] == "read" and c is not None:
+                    k = r["k"]
+                    done = last.get(k, [])
+                    busy = any(x["k"] == k for x in out.values())
+                    # mutators of k still outstanding when the read was issued?
+                    # ... and the read must have been driven right after it was issued
+                    if busy or len(done) < 2 or evs[i - 1] is not c:
+                        continue
+                    newest = max(done)           # highest ticket = issued last
+                    older = [d for d in done if d[0] < newest[0] and d[1] != newest[1]]
+                    if not older or r["res"] != newest[1]:
+                        continue
+                    wrong = max(older)[1]
+                    name = "older-write-wins" if wrong > 0 else "older-remove-wins"
+                    if newest[1] == 0:
+                        name = "removed-key-resurrected"
+                    if name not in muts:
+                        m = [dict(x) for x in evs]
+                        m[i]["res"] = wrong
+                        muts[name] = m
+        if len(muts) >= 3:
+            break
+    return selftest(wd, "KVStoreTrace", "KVStoreTrace.cfg", None, sorted(muts.items()))
+
+
 def selftest_mup(wd, recs):
     muts = []
     rep = set()
@@ -244,11 +302,15 @@ def run(tier, seed):
     # ---- 1. model checking (design + specification sanity) and behaviour generation
     kv_actions = ["MCallWrite", "MCallRemove", "MCallRead", "MCallList", "MLin", "MRetMut", "MRetRead", "MRetList"]
     kv_scripts = []
-    for cfg in (["KVStoreMC4.cfg", "KVStoreMC1.cfg"] if thorough else ["KVStoreMC.cfg", "KVStoreMC1.cfg"]):
+    akv_scripts = []
+    cfgs = ["KVStoreMC4.cfg", "KVStoreMC1.cfg", "KVStoreMCa2.cfg"] if thorough else \
+           ["KVStoreMC.cfg", "KVStoreMC1.cfg", "KVStoreMCa.cfg"]
+    for cfg in cfgs:
         r, sc = mc("KVStoreMC", cfg, kv_actions, 3000 if thorough else 600)
         mcs.append(("KVStoreMC/" + cfg, r))
         sc = dedupe(sc)
-        cap = 3000 if thorough else 450
+        is_async = cfg.startswith("KVStoreMCa")
+        cap = (2500 if thorough else 250) if is_async else (3000 if thorough else 400)
         if len(sc) > cap:
             sc = rng.sample(sc, cap)
         for i, s in enumerate(sc):
@@ -259,11 +321,14 @@ def run(tier, seed):
                     if o["op"] != "list" and o["k"] == 2:
                         o["k"] = 3
             else:
-                # both keys in one namespace: keys 1 and 2 of any layout
+                # the model's keys share one namespace: keys 1 and 2 of any layout
                 s["layout"] = i % 4
-        kv_scripts += sc
+        if is_async:
+            akv_scripts += sc
+        else:
+            kv_scripts += sc
     kv_spath = os.path.join(wd, "kv-scripts.ndjson")
-    write_ndjson(kv_spath, kv_scripts)
+    write_ndjson(kv_spath, kv_scripts + akv_scripts)   # the engine runs the synchronous ones first
 
     mup_actions = ["MNew", "MUpdate", "MSync", "MStep", "MStepFail", "MReturn", "MLand", "MCleanup",
                    "MCleanupDuringCall", "MCStep", "MCStepFail", "MCrash"]
@@ -272,7 +337,7 @@ def run(tier, seed):
     mup_scripts = dedupe([convert_mup(s) for s in sc])
     # prefer scripts that do something after the channel exists
     mup_scripts = [s for s in mup_scripts if sum(1 for o in s["ops"] if o["op"] == "upd") >= 1]
-    cap = 6000 if thorough else 1200
+    cap = 6000 if thorough else 1000
     if len(mup_scripts) > cap:
         mup_scripts = rng.sample(mup_scripts, cap)
     mup_spath = os.path.join(wd, "mup-scripts.ndjson")
@@ -282,12 +347,15 @@ def run(tier, seed):
     fs_dir = os.path.join(wd, "fs-scratch")
     fs_trace = os.path.join(wd, "trace-fs.ndjson")
     nconc = 400 if thorough else 60
+    nasync = 600 if thorough else 80
     fs = run_engine(bins["kvstore"], ["--mode", "fs", "--out", fs_trace, "--dir", fs_dir, "--scripts", kv_spath,
-                                      "--random", nconc, "--ops", 60 if thorough else 40, "--seed", seed],
+                                      "--random", nconc, "--ops", 60 if thorough else 40, "--seed", seed,
+                                      "--async-random", nasync],
                     os.path.join(wd, "summary-fs.json"))
     shutil.rmtree(fs_dir, ignore_errors=True)
     vlib.log("[kvstore fs] %s" % fs)
-    if fs["ops"] < 1000 or fs["concurrent_runs"] != nconc:
+    if fs["ops"] < 1000 or fs["concurrent_runs"] != nconc or fs["async_runs"] != nasync + 2 * len(akv_scripts) \
+            or fs["async_ops"] < 5 * nasync:
         raise vlib.ToolError("file-system driver did not run")
 
     mup_trace = os.path.join(wd, "trace-mup.ndjson")
@@ -308,12 +376,20 @@ def run(tier, seed):
     nviol = 0
     tot_fs, fails = vlib.validate_trace(PID, "KVStoreTrace", "KVStoreTrace.cfg", fs_trace, timeout=1800, tag="fs")
     nscr = 2 * len(kv_scripts)
+    nascr = 2 * len(akv_scripts)
     for fl in fails:
         runid = fl["run"]
         if runid <= nscr:
             src = {"script": kv_scripts[(runid - 1) // 2], "store": "v1" if runid % 2 == 1 else "v2"}
+        elif runid <= nscr + nascr:
+            src = {"script": akv_scripts[(runid - nscr - 1) // 2], "store": "v1" if runid % 2 == 1 else "v2",
+                   "note": "asynchronous API: ops are issued in script order, `await k` drives the future issued "
+                           "by ops[k-1]"}
+        elif runid <= nscr + nascr + nasync:
+            src = {"async_random_index": runid - 1 - nscr - nascr, "seed": seed,
+                   "note": "asynchronous API; call events are the issue order (tk), ret events the completions"}
         else:
-            src = {"concurrent_run_index": runid - 1 - nscr, "seed": seed,
+            src = {"concurrent_run_index": runid - 1 - nscr - nascr - nasync, "seed": seed,
                    "note": "thread schedules are not reproducible; the recorded events below are the evidence"}
         key = "panic" if fl["rec"].get("ev") == "panic" else None
         if vlib.report_violation(PID, "fs-run%d" % runid, {
@@ -347,6 +423,7 @@ def run(tier, seed):
     st = None
     if nviol == 0:
         st = {"kvstore": selftest_fs(wd, head_runs(fs_trace, 1500)),
+              "kvstore_issue_order": selftest_async(wd, fs_trace),
               "mup": selftest_mup(wd, head_runs(mup_trace, 3000))}
         vlib.log("[selftest] %s" % st)
 
@@ -365,6 +442,8 @@ def run(tier, seed):
         "mc_runs": [{"cfg": c, "distinct": r["distinct"], "generated": r["states"], "depth": r["depth"],
                      "action_coverage": r["coverage"], "wall_s": round(r["wall_s"], 1)} for c, r in mcs],
         "kvstore": {"script_runs": fs["script_runs"], "concurrent_runs": fs["concurrent_runs"],
+                    "async_runs": fs["async_runs"], "async_script_runs": 2 * len(akv_scripts),
+                    "async_operations": fs["async_ops"],
                     "store_operations": fs["ops"], "events_validated": tot_fs, "impl_panics": fs["panics"]},
         "mup": {"script_runs": mup["script_runs"], "history_runs": mup["runs"] - mup["script_runs"],
                 "persister_calls": mup["persister_calls"], "crash_recoveries_run": mup["recoveries"],
@@ -376,8 +455,8 @@ def run(tier, seed):
     vlib.write_evidence(PID, tier, seed, "model_checking", cov, [
         "power-loss durability of the file system (fsync, rename atomicity across a machine crash) is assumed: "
         "crash points are between store operations, not inside one",
-        "the async KVStore implementation of FilesystemStore is compiled out (cargo feature `tokio` is off), so "
-        "issue order is exercised through the synchronous API only (real-time order of calls)",
+        "asynchronous KVStore runs use one driver that issues <= 6 outstanding operations and drives the futures "
+        "in reverse / permuted order (one by one or spawned together on a tokio runtime); a run uses one API only",
         "a lazy removal is either landed or not at a crash; while running it is visible as removed",
         "after an UnrecoverableError the node stops (ChainMonitor panics); no further persistence is modelled",
         "monitor equality is the library's `==` after connecting the node's own blocks to the recovered monitor",
